@@ -62,6 +62,20 @@ func probeList() []probe {
 			bopts: blob.Opts{ChunkSize: 512, MinChunkSize: 4096, Compression: "zstdchunked", Level: 1},
 		},
 		{
+			// on-memory LRU under pressure: few hot chunks, an LRU smaller than the hot set,
+			// many readers: cache hits (Get + ReadAt of the pooled buffer) constantly overlap
+			// with evictions and Adds that recycle buffers
+			name:  "lru-pressure",
+			ents:  []gen.Entry{reg("a", 2*4096, 81), reg("b", 2*4096, 83), reg("c", 2*4096, 85)},
+			bopts: blob.Opts{ChunkSize: 4096, Compression: "gzip", Level: 1},
+			env: func(e *envSpec) {
+				e.cfg.DirectoryCacheConfig.MaxLRUCacheEntry, e.cfg.DirectoryCacheConfig.MaxCacheFds = 3, 2
+				e.cfg.BlobConfig.ChunkSize = 0
+				e.walkers, e.opsA, e.opsC, e.readHeavy = 12, 500, 100, true
+				e.prefetchSize = 0
+			},
+		},
+		{
 			// two layers of the same shape through one resolver, on-memory LRU in use: the
 			// chunk-cache keys (node id, chunk offset, chunk size) of the two layers coincide
 			name:  "same-shaped-layers",
@@ -143,13 +157,14 @@ func probesStage(r *vf.Run) {
 }
 
 // runProbes is the parent side: resume after a probe that killed the child.
-func runProbes(r *vf.Run) {
-	journal := filepath.Join(r.Scratch, "journal-probes")
+func runProbes(r *vf.Run, race bool) {
+	journal := filepath.Join(r.Scratch, fmt.Sprintf("journal-probes-%v", race))
 	n := len(probeList())
 	next := 0
 	for restarts := 0; next < n && restarts <= n; restarts++ {
 		_ = os.Remove(journal)
-		ex := r.RunChild(vf.ChildSpec{Stage: "probes", Args: []string{journal, fmt.Sprint(next)}})
+		ex := r.RunChild(vf.ChildSpec{Stage: "probes", Race: race, Args: []string{journal, fmt.Sprint(next)}})
+		accountRaces(r, ex.Races)
 		if cleanExit(ex) {
 			return
 		}
